@@ -210,6 +210,8 @@ def entries : List Entry := [
   { kind := "S", op := "c08.process", run := fun
       | [_tok, us, _pw, d, w, tu, t16, f, _tl, lm, nt, msg, out] => do
         if msg == "none" then pure "*" else
+        -- the harness found the token changed, or the CHALLENGE the context keeps different from a fresh parse of the token
+        if msg == "stored-differs" then pure "invalid-stored-challenge" else
         let f ← u32Arg f; let us ← fromHex us; let d ← fromHex d; let w ← fromHex w
         let up := tableFn (← parseTable tu); let u16 := tableFn (← parseTable t16)
         let lm ← fromHex lm; let nt ← fromHex nt
